@@ -16,6 +16,8 @@ CONTRACTS = {
                  # evenly spaced, stated division-free:  result[x] * (num-1) == start*(num-1) + x*(stop-start)
                  "implies(abs(start - stop) > '1/10000000' and num > 1, forall(x, 0, num, "
                  "result[x] * real(num - 1) == start * real(num - 1) + real(x) * (stop - start)))",
+                 # every sample lies between start and stop
+                 "forall(x, 0, len(result), (start <= result[x] and result[x] <= stop) or (stop <= result[x] and result[x] <= start))",
                  # starts and ends exactly on the interval ends
                  "implies(abs(start - stop) > '1/10000000' and num > 1, result[0] == start and result[num - 1] == stop)"],
     ),
